@@ -626,6 +626,61 @@ pub fn harvested_at_words() -> &'static Vec<String> {
     })
 }
 
+/// Plain words (identifier-shaped, 3-20 letters) found inside string literals of /repo/src:
+/// candidates for member names (a library that gives a meaning to a particular identifier
+/// names it somewhere).
+pub fn harvested_idents() -> &'static Vec<String> {
+    static WORDS: std::sync::OnceLock<Vec<String>> = std::sync::OnceLock::new();
+    WORDS.get_or_init(|| {
+        let mut out: std::collections::BTreeSet<String> = std::collections::BTreeSet::new();
+        if let Ok(rd) = std::fs::read_dir("/repo/src") {
+            let mut files: Vec<_> = rd.flatten().map(|e| e.path()).collect();
+            files.sort();
+            for f in files {
+                let name = f.file_name().map(|n| n.to_string_lossy().to_string()).unwrap_or_default();
+                if !(name.ends_with(".rs") || name.ends_with(".lalrpop")) || name == "verif.rs" || name == "rules.rs" {
+                    continue;
+                }
+                let text = std::fs::read_to_string(&f).unwrap_or_default();
+                let mut in_str = false;
+                let mut prev = ' ';
+                let mut word = String::new();
+                for c in text.chars() {
+                    if c == '"' && prev != '\\' {
+                        in_str = !in_str;
+                    }
+                    if in_str && (c.is_ascii_alphabetic() || c == '_' || (!word.is_empty() && c.is_ascii_digit())) {
+                        word.push(c);
+                    } else {
+                        if in_str || c == '"' {
+                            if word.len() >= 3 && word.len() <= 20 && prev != '@' {
+                                out.insert(word.clone());
+                            }
+                        }
+                        word.clear();
+                    }
+                    prev = c;
+                }
+            }
+        }
+        out.into_iter().take(600).collect()
+    })
+}
+
+/// Words of the current source tree's dictionary that are NOT in the dictionary of the tree the
+/// simulator was built for (sim/baseline_dict.txt, regenerate with `aidl-sim dict`): the
+/// vocabulary a change to the library introduced. Empty on the unchanged tree. Only ever used to
+/// bias generation.
+pub fn novel_words() -> &'static (Vec<String>, Vec<String>) {
+    static WORDS: std::sync::OnceLock<(Vec<String>, Vec<String>)> = std::sync::OnceLock::new();
+    WORDS.get_or_init(|| {
+        let base: std::collections::BTreeSet<&str> = include_str!("../baseline_dict.txt").lines().collect();
+        let at: Vec<String> = harvested_at_words().iter().filter(|w| !base.contains(w.as_str())).cloned().collect();
+        let id: Vec<String> = harvested_idents().iter().filter(|w| !base.contains(w.as_str())).cloned().collect();
+        (at, id)
+    })
+}
+
 /// Per-run generation knobs (swarm)
 #[derive(Clone, Debug)]
 pub struct GenKnobs {
@@ -655,6 +710,8 @@ pub struct GenKnobs {
     /// vocabulary item that is rare overall is frequent in some runs)
     pub fav_annots: Vec<String>,
     pub fav_docs: Vec<String>,
+    /// favourite member names (methods, arguments, fields, constants, enum elements)
+    pub fav_idents: Vec<String>,
     pub p_fav: u32,
 }
 
@@ -682,7 +739,10 @@ impl GenKnobs {
             fav_annots: (0..rng.range(1, 2))
                 .map(|_| {
                     let h = harvested_at_words();
-                    if !h.is_empty() && rng.pct(50) {
+                    let n = &novel_words().0;
+                    if !n.is_empty() && rng.pct(70) {
+                        rng.pick(n).clone()
+                    } else if !h.is_empty() && rng.pct(50) {
                         rng.pick(h).clone()
                     } else {
                         rng.pick(ANNOTS).to_string()
@@ -692,14 +752,34 @@ impl GenKnobs {
             fav_docs: (0..rng.range(1, 2))
                 .map(|_| {
                     let h = harvested_at_words();
-                    if !h.is_empty() && rng.pct(50) {
+                    let n = &novel_words().0;
+                    if !n.is_empty() && rng.pct(70) {
+                        format!("{} something", rng.pick(n))
+                    } else if !h.is_empty() && rng.pct(50) {
                         format!("{} something", rng.pick(h))
                     } else {
                         rng.pick(DOC_TEXTS).to_string()
                     }
                 })
                 .collect(),
-            p_fav: *rng.pick(&[0, 0, 60, 90]),
+            fav_idents: (0..rng.range(2, 4))
+                .map(|_| {
+                    let h = harvested_idents();
+                    let n = &novel_words().1;
+                    if !n.is_empty() && rng.pct(80) {
+                        rng.pick(n).clone()
+                    } else if !h.is_empty() && rng.pct(70) {
+                        rng.pick(h).clone()
+                    } else {
+                        rng.pick(&["struct", "union", "class", "value", "id", "size", "type", "self", "async", "register", "NULL", "String", "in", "oneway"]).to_string()
+                    }
+                })
+                .collect(),
+            p_fav: if novel_words().0.is_empty() && novel_words().1.is_empty() {
+                *rng.pick(&[0, 0, 60, 90])
+            } else {
+                *rng.pick(&[0, 60, 60, 90])
+            },
         }
     }
 
@@ -723,6 +803,15 @@ impl GenKnobs {
             self.p_crlf,
             self.p_nested_import
         )
+    }
+}
+
+/// A member name: usually the systematic one, in favourite runs often a favourite identifier
+fn member_name(rng: &mut Rng, k: &GenKnobs, systematic: String) -> String {
+    if rng.pct(k.p_fav / 2) {
+        rng.pick(&k.fav_idents).clone()
+    } else {
+        systematic
     }
 }
 
@@ -971,7 +1060,7 @@ pub fn gen_members(
                         } else {
                             gen_type(rng, u, k, imports, fwd, 2)
                         },
-                        name: format!("C{mi}"),
+                        name: member_name(rng, k, format!("C{mi}")),
                         value: rng.pick(&["1", "\"s\"", "true", "1.5f", "{}"]).to_string(),
                         doc: gen_doc_comment(rng, k),
                     });
@@ -989,7 +1078,7 @@ pub fn gen_members(
                         },
                         ty: gen_type(rng, u, k, imports, fwd, 0),
                         name: if rng.pct(80) {
-                            Some(format!("a{ai}"))
+                            Some(member_name(rng, k, format!("a{ai}")))
                         } else {
                             None
                         },
@@ -1016,7 +1105,7 @@ pub fn gen_members(
                     name: if rng.pct(10) {
                         "m0".to_owned()
                     } else {
-                        format!("m{mi}")
+                        member_name(rng, k, format!("m{mi}"))
                     },
                     args,
                     code,
@@ -1027,7 +1116,7 @@ pub fn gen_members(
             Kind::Parcelable => {
                 members.push(Member::Field {
                     ty: gen_type(rng, u, k, imports, fwd, 0),
-                    name: format!("f{mi}"),
+                    name: member_name(rng, k, format!("f{mi}")),
                     value: if rng.pct(15) {
                         Some(rng.pick(&["1", "\"v\"", "{}"]).to_string())
                     } else {
@@ -1039,7 +1128,7 @@ pub fn gen_members(
             }
             Kind::Enum => {
                 members.push(Member::EnumElem {
-                    name: format!("E{mi}"),
+                    name: member_name(rng, k, format!("E{mi}")),
                     value: if rng.pct(50) {
                         Some(format!("{}", rng.below(9)))
                     } else {
